@@ -630,7 +630,11 @@ class _Interpolator(object):
         # iterate through dimensions
         for xi, cvec in zip(x, self.coord_vecs):
             try:
-                xi = np.asarray(xi).astype(self.values.dtype, casting='safe')
+                # Coordinates are real: use the real counterpart of a
+                # complex value dtype (complex division is inexact)
+                xi = np.asarray(xi).astype(
+                    np.empty(0, dtype=self.values.dtype).real.dtype,
+                    casting='safe')
             except TypeError:
                 warn("Unable to infer accurate dtype for"
                   +" interpolation coefficients, defaulting to `float`.")
